@@ -571,9 +571,23 @@ pub fn procedural_graph(n: usize, seed: u64, directed: bool, weighted: bool) -> 
     for i in 0..n {
         s = crate::core::mix(s, i as u64);
         add(i, (i + 1) % n, s, &mut edges);
-        for _ in 0..2 {
+        // (graphs beyond 50 000 nodes get one chord per four nodes, to keep them affordable)
+        let chords = if n > 50_000 { (i % 4 == 0) as usize } else { 2 };
+        for _ in 0..chords {
             s = crate::core::mix(s, 0x77);
             add(i, (s % n as u64) as usize, s, &mut edges);
+        }
+    }
+    if n >= 1000 {
+        // two hubs at low positions that reach the first and the last few hundred positions and
+        // about 3% of the others
+        for hub in 0..2usize {
+            for v in 2..n {
+                s = crate::core::mix(s, v as u64);
+                if s % 32 == 0 || v < 600 || v + 600 >= n {
+                    add(hub, v, s, &mut edges);
+                }
+            }
         }
     }
     NormGraph {
